@@ -139,13 +139,19 @@ func (c *Cluster) checkC04(n *SimNode) {
 	}
 	store := h.Store
 	pos := map[string]int{}
+	gap := false
 	seq := 0
 	blockIdx := 0
 	lastBlock := store.LastBlockIndex()
 	for r := 0; r <= *h.LastConsensusRound; r++ {
 		frame, err := store.GetFrame(r)
 		if err != nil {
-			continue // round without processed frame (evicted or not yet processed)
+			// round without processed frame, or a frame evicted from a small cache:
+			// from here on a parent may have been committed in a frame we cannot read
+			if r < store.LastRound() {
+				gap = true
+			}
+			continue
 		}
 		var txs [][]byte
 		var itxs int
@@ -162,6 +168,9 @@ func (c *Cluster) checkC04(n *SimNode) {
 			}
 			for _, p := range []string{de.SelfP, de.OtherP} {
 				if p == "" {
+					continue
+				}
+				if _, ok := pos[p]; !ok && gap {
 					continue
 				}
 				if _, ok := pos[p]; !ok {
@@ -195,6 +204,21 @@ func (c *Cluster) checkC04(n *SimNode) {
 		if err != nil {
 			blockIdx++
 			continue
+		}
+		if gap && blk.RoundReceived() < r {
+			// frames (with payload) we could not read account for the blocks in between
+			for blockIdx <= lastBlock {
+				b2, err := store.GetBlock(blockIdx)
+				if err != nil || b2.RoundReceived() >= r {
+					break
+				}
+				blockIdx++
+			}
+			if b2, err := store.GetBlock(blockIdx); err == nil {
+				blk = b2
+			} else {
+				continue
+			}
 		}
 		if blk.RoundReceived() != r {
 			c.violate("C04", "block-is-one-round", "block-round-mismatch", "node %d: block %d has round-received %d, but the next frame with payload is %d", n.idx, blockIdx, blk.RoundReceived(), r)
